@@ -64,11 +64,15 @@ func zzCatalogue(shape int) []Input {
 		return []Input{zzIn("uint256[3]", false), zzIn("uint256", true)}
 	case 23: // unselected static tuple, then a selected static field and a selected dynamic one
 		return []Input{zzIn("tuple", false, zzIn("uint256", false), zzIn("address", false)), zzIn("address", true), zzIn("bytes", true)}
+	case 24: // a nested tuple with two selected leaves, then a selected leaf of the outer tuple (column numbering)
+		return []Input{zzIn("tuple", false, zzIn("tuple", false, zzIn("uint256", true), zzIn("bytes", true)), zzIn("uint256", true))}
+	case 25: // the same with a nested array of tuples
+		return []Input{zzIn("tuple", false, zzIn("tuple[]", false, zzIn("uint256", true), zzIn("address", true)), zzIn("uint256", true))}
 	}
 	return nil
 }
 
-const zzCatalogueSize = 24
+const zzCatalogueSize = 26
 
 func wpgTable(name string, cols ...string) wpg.Table {
 	t := wpg.Table{Name: name}
